@@ -681,6 +681,10 @@ inductive Op where
   | readdConnection (n0 n1 : Name)
   /-- `grid.add_block(grid.block[nm])`: the same object a second time -/
   | againBlock (nm : Name)
+  /-- `grid.embed(sub, t2connection([t2block(host, hostvol), subblock], …))`: the connection's host
+      block is a standalone object that only carries the *name* of a block of the grid (as a block of
+      a copy of the grid, or of the grid before it was written and re-read, would) -/
+  | embedStandalone (spec : GridSpec) (host sub : Name) (p : ConPay) (hostvol : Rat)
   deriving Repr, Inhabited
 
 /-- what a call leaves behind -/
@@ -830,6 +834,18 @@ def step (w : World) : Op → Out
       match embed w4 other c with
       | .ok (w5, fl) => { w := w5, flag := fl }
       | .error (e, w5) => { w := w5.withGrid w4.grid, exc := some e })
+  | .embedStandalone spec host sub p hostvol =>
+    let (w1, other) := buildSpec w spec
+    (
+      let (r, w2) := w1.newRock { name := ['d','f','a','l','t'], tag := 0 }
+      let (hb, w3) := w2.newBlk { name := host, volume := hostvol, rock := r, centre := none, conn := [] }
+      let (sb, w4) := match dget other.block sub with
+        | some b => (b, w3)
+        | none => w3.defaultBlk sub
+      let (c, w5) := w4.newCon (mkCon hb sb p)
+      match embed w5 other c with
+      | .ok (w6, fl) => { w := w6, flag := fl }
+      | .error (e, w6) => { w := w6.withGrid w5.grid, exc := some e })
   | .addBlockFresh nm rock vol centre => stepReuse w (.addBlockFresh nm rock vol centre)
   | .readdBlock nm => stepReuse w (.readdBlock nm)
   | .readdRocktype nm => stepReuse w (.readdRocktype nm)
